@@ -40,8 +40,8 @@ class TLCResult(object):
 
 _RE_STATES = re.compile(r"(\d+) states generated, (\d+) distinct states found, (\d+) states left")
 _RE_DEPTH = re.compile(r"depth of the complete state graph search is (\d+)")
-_RE_REJECT = re.compile(r'REJECT\|([^\n"]*)')
-_RE_INFO = re.compile(r'INFO\|([^\n"]*)')
+_RE_REJECT = re.compile(r'REJECT\|([^\n]*?)"?\s*$', re.M)
+_RE_INFO = re.compile(r'INFO\|([^\n]*?)"?\s*$', re.M)
 _RE_COV = re.compile(r"^<(\w+) line \d+, col \d+ to line \d+, col \d+ of module (\w+)>: (\d+):(\d+)",
                      re.M)
 
